@@ -410,8 +410,15 @@ def judge_real(rep, lname, cname, zero, usage, rc, out, err, tmp,
             'brief': f'{lname} [{cname}]: {detail} (status {rc}; stdout '
                      f'{out[-200:]!r}; stderr {err[-300:]!r})'})
 
-    if 'Traceback (most recent call last)' in err or 'Traceback' in out:
+    # after an interrupt the pool's worker processes, which receive the
+    # signal too, may print their own KeyboardInterrupt traceback (depending
+    # on where the signal catches them); the property is about the main
+    # process, which must report the interrupt and exit with status != 0
+    if not interrupt and ('Traceback (most recent call last)' in err
+                          or 'Traceback' in out):
         bad('traceback', 'uncaught traceback')
+    if interrupt and '[ddsmt] interrupted' not in out:
+        bad('interrupt-not-reported', 'no "[ddsmt] interrupted" message')
     if zero and rc != 0:
         bad('nonzero-on-completion', 'minimisation ran to completion but the '
             'exit status is not 0')
